@@ -226,7 +226,8 @@ Definition allocs_stable (prev cur : list prec) : bool :=
   forallb (fun c => match find_rec prev (r_name c) with
                     | Some r => negb (have_fixed (r_allocs r)) || allocs_eqb (r_allocs r) (r_allocs c) || r_del r
                     | None => true end) cur.
-Definition fixed_kind (k : Z) : bool := (1 <=? k mod 10) && (k mod 10 <=? 4).
+(* kinds 1..4: fixed allocations only; 6, 7: an elastic interface beside a fixed one (the record as a whole is a fixed-IP record) *)
+Definition fixed_kind (k : Z) : bool := ((1 <=? k mod 10) && (k mod 10 <=? 4)) || (k mod 10 =? 6) || (k mod 10 =? 7).
 Definition rebound_ok (b : blk) : bool :=
   forallb (fun p => if fixed_kind (q_kind p) && fixed_name p && negb (q_exited p) then
                       match find_rec (b_recs b) (q_name p) with
